@@ -103,8 +103,38 @@ def check(m, run):
     if len(hits) != 1:
         raise AnalysisError('DV1 positive control not reported: rule is broken')
     run.extra.setdefault('positive_controls', []).append('DV1: synthetic wrong-variable zero guard reported as expected')
+    # ---------------------------------------------------------------- FD1 running products never floor a single factor
+    for fi in funcs:
+        for key, node in floored_factor_findings(fi.node):
+            run.ob('FD1.no-floored-factor', '%s :: %s' % (fi.key, key), False,
+                   'a running product is multiplied by a floor-divided factor: floor(a/b) * c is not floor(a*c/b); the quotient of products must be taken on the whole product',
+                   site(fi, node))
+    ctl = ast.parse('def f(k, i):\n    r = 1\n    for j in range(i):\n        r *= (k - j) // (j + 1)\n    return r\n').body[0]
+    if len(floored_factor_findings(ctl)) != 1:
+        raise AnalysisError('FD1 positive control not reported: rule is broken')
+    run.ob('FD1.no-floored-factor', 'linalg/_linalg', True, '%d functions scanned; positive control reported' % len(funcs))
     run.floor('PU1.no-param-mutation', 30, 'functions of linalg/_linalg')
     run.floor('PU4.memo-result-immutable', 5, 'five lru_cache functions on the pinned tree')
+
+
+def floored_factor_findings(fn):
+    out = []
+    for n in walk_no_nested(fn):
+        val = None
+        if isinstance(n, ast.AugAssign) and isinstance(n.op, ast.Mult):
+            val = n.value
+        elif isinstance(n, ast.Assign) and isinstance(n.value, ast.BinOp) and isinstance(n.value.op, ast.Mult) and len(n.targets) == 1 \
+                and isinstance(n.targets[0], ast.Name) and any(isinstance(x, ast.Name) and x.id == n.targets[0].id for x in (n.value.left, n.value.right)):
+            val = n.value.right if isinstance(n.value.left, ast.Name) and n.value.left.id == n.targets[0].id else n.value.left
+        if val is not None and isinstance(val, ast.BinOp) and isinstance(val.op, ast.FloorDiv) and not isinstance(val.right, ast.Constant):
+            inloop = False
+            p = n
+            while p is not None:
+                if isinstance(p, (ast.For, ast.While)):
+                    inloop = True
+                p = getattr(p, '_sa_parent', None)
+            out.append((norm(n)[:70], n))
+    return out
 
 
 def zero_guard_findings(fn):
